@@ -11,7 +11,7 @@ usage: seedcheck.py <seed-id> <property> <dir-with-SEEDED>    e.g. seedcheck.py 
 """
 import json, os, shutil, subprocess, sys, time
 
-ENV = dict(os.environ, GOFLAGS="-mod=mod", GOPROXY="off", GOSUMDB="off", GOTOOLCHAIN="local")
+ENV = dict(os.environ, GOFLAGS="-mod=mod -trimpath", GOPROXY="off", GOSUMDB="off", GOTOOLCHAIN="local")
 ENV.pop("GOWORK", None)
 
 def run(cmd, cwd=None, timeout=1200):
